@@ -305,6 +305,8 @@ impl Check for C04 {
         }
         ex.workload_fp = fp.0;
         ex.nontrivial = c.f.n() + c.x.w.len() > 0;
+        ex.probe_if(c.f.n() >= 64 || c.f.m() >= 64 || c.f.s.len() >= 64 || c.f.t.len() >= 64, "size_64_or_more");
+        ex.probe_if(c.f.n() >= 256 || c.f.m() >= 256 || c.f.s.len() >= 256 || c.f.t.len() >= 256, "size_256_or_more");
         ex.probe_if(c.x.w.is_empty() && c.x.well_typed(), "spider_with_empty_node_set");
         ex.probe_if(c.x.well_typed() && (0..c.x.w.len()).any(|v| !c.x.t.contains(&v)), "non_surjective_leg");
         ex.probe_if(c.x.well_typed() && (0..c.x.t.len()).any(|i| c.x.t[..i].contains(&c.x.t[i])), "non_injective_leg");
